@@ -169,6 +169,11 @@ public:
                                                                                \
       return tainted<T, T_Sbx>::internal_factory(reinterpret_cast<T>(target)); \
     } else {                                                                   \
+      /* e.g. "3 + tainted_ptr": host pointer arithmetic would escape the */   \
+      /* sandbox bounds check above */                                         \
+      static_assert(std::is_integral_v<decltype(raw_rhs)> ||                   \
+                      std::is_floating_point_v<decltype(raw_rhs)>,             \
+                    "Can only operate on numeric types");                      \
       auto raw = impl().get_raw_value();                                       \
       auto ret = raw opSymbol raw_rhs;                                         \
       using T_Ret = decltype(ret);                                             \
